@@ -137,6 +137,20 @@ theorem walk_specCalls (c : Cfg α) : ∀ (ts : Calls α) (a b : Bool) (ld d : N
     simpa using walk_specCalls c r a b ld d
 end
 
+/-! ### pseudo addresses: the table only grows at the end -/
+
+theorem symsOf_prefix [BEq α] : ∀ (evs : List (Ev α)) (syms : List α),
+    ∃ t, symsOf syms evs = syms ++ t
+  | [], syms => ⟨[], by simp [symsOf]⟩
+  | e :: es, syms => by
+    obtain ⟨t, ht⟩ := symsOf_prefix es (intern syms e.name)
+    simp only [symsOf]
+    rw [ht]
+    simp only [intern]
+    split
+    · exact ⟨t, rfl⟩
+    · exact ⟨e.name :: t, by simp⟩
+
 /-! ### one frame: the entry event, and the exit event from the state after it -/
 
 macro "split_omega" : tactic =>
